@@ -139,11 +139,11 @@ theorem import_export_full_fails : ¬ import_export_full := by
 /-! ### the other import entry points: `ImportUint` (all four Go widths), `ImportBytes`, `ExportUint64` -/
 
 /-- `ImportUint` lays the value out faithfully: the bytes denote the value, whatever the width … -/
-theorem importUint_value (w v optBits : Nat) (hv : v < 2 ^ w) (hw : w % 8 = 0) :
+theorem importUint_value (w v : Nat) (optBits : Int) (hv : v < 2 ^ w) (hw : w % 8 = 0) :
     valOf (importUint w v optBits).bytes = v := valOf_importUint optBits hv hw
 
 /-- … `ExportUint64` returns it … -/
-theorem exportUint64_importUint (w v optBits : Nat) (hv : v < 2 ^ w) (hw : w % 8 = 0) (h64 : w ≤ 64) :
+theorem exportUint64_importUint (w v : Nat) (optBits : Int) (hv : v < 2 ^ w) (hw : w % 8 = 0) (h64 : w ≤ 64) :
     exportUint64 (importUint w v optBits) = some v :=
   BMV.Numbers.exportUint64_importUint optBits hv hw h64
 
@@ -154,9 +154,30 @@ theorem import_export_importUint64 (v : Nat) (hv : v < 2 ^ 64) :
 
 /-- … and a `uint8/16/32` (or an `optionalBits` override) comes back with the same value but 64 bits
     (the listed finding `C08-unsigned-sized-width-lost`) -/
-theorem import_export_importUint_value (w v optBits : Nat) (hv : v < 2 ^ w) (hw : w % 8 = 0) (h64 : w ≤ 64) :
+theorem import_export_importUint_value (w v : Nat) (optBits : Int) (hv : v < 2 ^ w) (hw : w % 8 = 0) (h64 : w ≤ 64) :
     (exportString (importUint w v optBits)).bind importString = some ⟨toBytesLE 8 v, 64, .unsigned⟩ :=
   importUint_reimport optBits hv hw h64
+
+/-- the width field: `optionalBits` overrides only when positive; 0 and the negative 'any size'
+    sentinel (`GetSize() = -1` of unsigned / signed / hex / bin, which the simulator's show path passes)
+    keep the native width of the Go value -/
+theorem importUint_bits_sentinel (w v : Nat) (optBits : Int) (h : optBits ≤ 0) :
+    (importUint w v optBits).bits = w := BMV.Numbers.importUint_bits_sentinel w v optBits h
+
+theorem importUint_bits_override (w v : Nat) (optBits : Int) (h : 0 < optBits) :
+    (importUint w v optBits).bits = optBits.toNat := BMV.Numbers.importUint_bits_override w v optBits h
+
+/-- the simulator's show path `ImportUint(v, t.GetSize())` + `CastType(t)` + `ExportString` for the
+    any-size types bin and hex: the text round-trips (value, width, type) -/
+theorem import_export_show_bin (w v : Nat) (hv : v < 2 ^ w) (hw : w % 8 = 0) (hpos : 8 ≤ w) (h64 : w ≤ 64) :
+    (exportString (castType (importUint w v (-1)) .bin)).bind importString
+      = some (castType (importUint w v (-1)) .bin) :=
+  roundtrip_bin _ (show_bin_wf hv hw hpos h64)
+
+theorem import_export_show_hex (w v : Nat) (hv : v < 2 ^ w) (hw : w % 8 = 0) (hpos : 8 ≤ w) (h64 : w ≤ 64) :
+    ∃ v', (exportString (castType (importUint w v (-1)) .hex)).bind importString = some v' ∧
+      v'.same (castType (importUint w v (-1)) .hex) :=
+  roundtrip_hex _ (show_hex_wf hv hw hpos h64)
 
 /-! ### the export option `OmitPrefix` (the only field of `BMNumberConfig`; `bmnumbers -omit-prefix`) -/
 
@@ -221,6 +242,9 @@ example : WFS64 ⟨[255, 255, 255, 255, 255, 255, 255, 255], 64, .signed⟩ :=
 example : importUint 64 0x0102030405060708 0 = ⟨[8, 7, 6, 5, 4, 3, 2, 1], 64, .unsigned⟩ := by decide +kernel
 example : exportString (importUint 64 0x10000000000 0) = some (ofString "1099511627776") := by decide +kernel
 example : exportUint64 (importUint 16 0xBEEF 0) = some 0xBEEF := by decide +kernel
+example : exportString (castType (importUint 16 0x2a5 (-1)) .hex) = some (ofString "0x<16>2a5") := by decide +kernel
+example : exportVerilogBinary (castType (importUint 16 0x2a5 (-1)) .bin) = ofString "16'b0000001010100101" := by
+  decide +kernel
 example : exportStringOmit ⟨[5], 5, .bin⟩ = some (ofString "<5>101") := by
   simp [exportStringOmit, exportString, exportBinary, binRaw, omitPrefix, prefixLetter, removeAll2, digits,
     digitsAux, digitChar, valOf, ofString]
